@@ -266,6 +266,14 @@ def reject_cases(rng, tag):
     # media duration beyond 64 bits cannot be reached with few samples; track timescale 2 / 3 with a huge movie timescale
     for tts in (2, 3):
         hist([full_conf("hevc", tts, rng)], [wr(1, U), wr(1, U), wr(1, U), wr(1, 1), wr(1, U), wr(1, 0)], U)
+    # configuration variety that changes the produced bytes: a major brand that is not among the compatible brands,
+    # every escaped audio object type, an AAC track without a configured bitrate whose samples all last 0 ticks
+    for i, aot in enumerate([32, 33, 36, 39, 40, 42, 44, 45]):
+        c = full_conf("aac", 44100, rng)
+        c["profile"], c["bitrate"] = aot, big(0 if i % 2 == 0 else 64000)
+        out.append({"id": "%s-%d" % (tag, len(out)), "seed": len(out),
+                    "cfg": {"major": s4("mp42"), "minor": big(1), "brands": [s4("isom"), s4("iso2")][: 1 + i % 2], "timescale": big(1000)}, "pos": [],
+                    "calls": [{"op": "add", "conf": c}] + [wr(1, 0 if i % 4 == 0 else 1024, ln=3) for _ in range(3)]})
     # two tracks of different timescales: the one with most media ticks is not the one that lasts longest
     for (ts1, d1, n1, ts2, d2, n2, mts) in ((90000, 30000, 3, 1000, 1000, 3, 1000), (1000, 500, 2, 48000, 1024, 100, 600), (1, 1, 5, U, U, 1, 1000)):
         hist([full_conf("avc", ts1, rng), full_conf("aac", ts2, rng)],
@@ -457,6 +465,12 @@ def c14_cases(tier, rng):
                 conf = full_conf(kind, 90000, rng)
                 conf["w"], conf["h"] = w, h
                 cases.append(cfg_case(n, [conf], rng)); n += 1
+    # the configured track kind is independent of the codec (a text track marked as video, audio marked as subtitle ...)
+    for kind in KINDS:
+        for tt in ("video", "audio", "subtitle"):
+            conf = full_conf(kind, 1000, rng)
+            conf["ttype"] = tt
+            cases.append(cfg_case(n, [conf, full_conf("aac", 48000, rng)], rng)); n += 1
     letters = "abcdefghijklmnopqrstuvwxyz"
     langs = ["aaa", "zzz", "und", "eng", "azz", "zaa", "mzm", "pqr", "xyz"] + ["".join(rng.choice(letters) for _ in range(3)) for _ in range(40 if tier == "quick" else 400)]
     for i, lg in enumerate(langs):
@@ -887,7 +901,7 @@ def c12(prop, tier, replay):
         report_read(prop, tier, res, cases, [], t0, known, "model_checking", "replay", 2)
         return
     stats, cases = [], []
-    for b in ("plain", "plaineof", "plainurl", "frag", "fragmf", "fragboth", "fragemsg", "fragsplit", "meta"):
+    for b in ("plain", "plaineof", "plainurl", "frag", "fragmf", "fragboth", "fragdef", "fragemsg", "fragsplit", "meta"):
         if not os.path.exists(os.path.join(SPEC, "MC_Layout_%s1.cfg" % b)):
             continue
         st, mcs = gen_mc("MC_Layout", "MC_Layout_%s1" % b, wd, tier, coverage=False)
@@ -980,7 +994,8 @@ def c15(prop, tier, replay):
     # (1) input files: spec-rendered (sample tables, fragments) and third-party canned files
     stl, lk = gen_mc("MC_Lookup", "MC_Lookup_q", wd, tier, coverage=False)
     stf, fr = gen_mc("MC_Frag", "MC_Frag_q", wd, tier, coverage=False)
-    pick_lk = [c for c in lk if c["place"] == "inter" and c["n"] == 3][:2]
+    # (two interleaved tracks; and a file whose media data box extends "to the end of the file": the reader's size() ends before it)
+    pick_lk = [c for c in lk if c["place"] == "inter" and c["n"] == 3][:2] + [c for c in lk if c["place"] == "eof" and c["n"] == 3][:1]
     pick_fr = [c for c in fr if c["ntracks"] == 2 and c["nfrag"] == 2][:2]
     files = [{"file": c["file"], "expect_ok": True} for c in pick_lk]
     for c in pick_fr:
@@ -1182,13 +1197,18 @@ def c11(prop, tier, replay):
     # before a later fragment must not change what earlier fragments say)
     st, mx = gen_mc("MC_Frag", "MC_Frag_mix", wd, tier, coverage=False)
     stats.append(st)
-    for dm in ("mixA", "mixB", "mixC"):
-        files += [{"file": c["file"], "kind": "spec-rendered fragmented " + dm} for c in mx
-                  if c["delivery"] == "one" and c["durMode"] == dm and c["base"] == "moof" and not c["mdatFirst"] and c["nfrag"] >= 2][:1 if tier == "quick" else 4]
+    # (with a movie-level default of 0 and of 7; with sequence numbers and decode times that decrease from fragment to fragment)
+    for dm, order, tx in (("mixA", "asc", []), ("mixA", "asc", [7]), ("mixA", "desc", [7]), ("mixB", "asc", []), ("mixB", "desc", []), ("mixC", "asc", [7])):
+        pick = [{"file": c["file"], "kind": "spec-rendered fragmented %s %s trex %s" % (dm, order, tx)} for c in mx
+                if c["delivery"] == "one" and c["durMode"] == dm and c["base"] == "moof" and not c["mdatFirst"] and c["nfrag"] >= 2
+                and c["order"] == order and c["trexDur"] == tx][:1 if tier == "quick" else 3]
+        if not pick:
+            raise ToolError("vacuity: no fragmented file %s %s %s" % (dm, order, tx))
+        files += pick
     # runs of unequal length whose total is a multiple of the number of fragments (3+1, 4+4+1): a prefix has
     # another total and another number of fragments
     for shape in ([[[1, 3]], [[1, 1]]], [[[1, 4]], [[1, 4]], [[1, 1]]], [[[1, 2]], [[1, 0]], [[1, 0]], [[1, 2]]]):
-        pick = [c for c in mx if c["st"] == [[list(tf) for tf in fg] for fg in shape] and c["delivery"] == "one" and c["base"] == "moof" and not c["mdatFirst"]]
+        pick = [c for c in mx if c["st"] == [[list(tf) for tf in fg] for fg in shape] and c["delivery"] == "one" and c["base"] == "moof" and not c["mdatFirst"] and c["order"] == "asc"]
         if not pick:
             raise ToolError("vacuity: no fragmented file with the runs %s" % shape)
         files += [{"file": c["file"], "kind": "spec-rendered fragmented, unequal runs"} for c in pick[:1 if tier == "quick" else 6]]
@@ -1391,8 +1411,10 @@ def robust_bases(tier, wd, rng):
     # more track fragments than samples
     st, fx = gen_mc("MC_Frag", "MC_Frag_extra", wd, tier, coverage=False)
     stats.append(st)
-    x0 = [c for c in fx if c["st"] == [[[1, 2]], [[1, 0]], [[1, -1]]] and c["delivery"] == "one" and c["base"] == "moof" and c["durMode"] == "per" and not c["mdatFirst"]][0]
+    x0 = [c for c in fx if c["st"] == [[[1, 2]], [[1, 0]], [[1, -1]]] and c["delivery"] == "one" and c["base"] == "moof" and c["durMode"] == "per" and not c["mdatFirst"] and c["order"] == "asc"][0]
     bases.append({"file": x0["file"], "fields": [], "kind": "spec-rendered fragmented movie, three track fragments holding two samples"})
+    x1 = [c for c in fx if c["st"] == [[[1, 2], [1, 1]], [[1, 1]]] and c["delivery"] == "one" and c["base"] == "moof" and c["durMode"] == "per" and not c["mdatFirst"] and c["order"] == "asc"][0]
+    bases.append({"file": x1["file"], "fields": [], "kind": "spec-rendered fragmented movie, two track fragments of one track in one moof"})
     bases.append({"file": canned("minimal.mp4"), "fields": [], "kind": "canned minimal.mp4"})
     bases.append({"file": canned("minimal_fragment.m4s"), "init": canned("minimal_init.mp4"), "fields": [], "kind": "canned fragment against canned init"})
     bases.append({"file": canned("extended_audio_object_type.mp4"), "fields": [], "kind": "canned extended_audio_object_type.mp4", "region": [0, 64]})
@@ -1557,7 +1579,7 @@ def robust_suite(tier):
     with ThreadPoolExecutor(max_workers=12) as ex:
         rs = list(ex.map(lambda j: run_robust_base(j[0], j[1], wd, j[2]), jobs))
     # amplification family: T tracks whose parameter-set records all reach into one shared region
-    amps = ["90,30,hevc", "90,30,avc", "30,60,hevc", "12,254,avc", "40,300,esds", "100,64,esds", "40,300,esds4", "20000,400000,fragwalk", "100,6000,tracksmoofs", "2000,0,drefwalk"] + ["80,200,tbl-" + t for t in ("stss", "stts", "ctts", "stsc", "stco", "co64", "stsz")] + (["90,200,hevc", "90,200,avc", "90,2000,esds", "60000,600000,fragwalk"] if tier == "thorough" else [])
+    amps = ["90,30,hevc", "90,30,avc", "30,60,hevc", "12,254,avc", "40,300,esds", "100,64,esds", "40,300,esds4", "20000,400000,fragwalk", "100,6000,tracksmoofs", "2000,0,drefwalk", "4000,0,moofwalk"] + ["80,200,tbl-" + t for t in ("stss", "stts", "ctts", "stsc", "stco", "co64", "stsz")] + (["90,200,hevc", "90,200,avc", "90,2000,esds", "60000,600000,fragwalk"] if tier == "thorough" else [])
     rs += [run_amplify(a, wd, p) for p in ("debug", "release") for a in amps]
     res = {"stats": stats, "bases": [{"kind": b["kind"], "len": len(b["file"]), "fields": len(b["fields"]), "plan": {k: v for k, v in b["plan"].items()}} for b in bases],
            "executions": sum(x["cases"] for x in rs), "events": sum(x["events"] for x in rs), "fails": [], "wall": time.time() - t0}
